@@ -140,6 +140,7 @@ func ParseMultiWithRecovery(tokens []token.Token) *RecoveryResult {
 //	defer parser.PutParser(p)
 //	stmts, errs := p.ParseWithRecovery(tokens)
 func (p *Parser) ParseWithRecovery(tokens []token.Token) ([]ast.Statement, []error) {
+	p.positions = nil // no position mapping for this input: drop the one of an earlier parse
 	return p.parseWithRecovery(tokens)
 }
 
